@@ -378,6 +378,31 @@ def check_beer_lambert(case, os_):
     return None
 
 
+def check_beer_lambert_edited(case, os_, d2):
+    """the same medium object simulated, its layer thickness edited in place (a sensitivity loop), and simulated again: the second
+    profile integrates to the closed form of the thickness it has now"""
+    objs = build(case)
+    o = dict(oversampling=os_, theta_inc_sampling=1, return_contributions=True, return_oversampled=True, skip_pfs_convolution=True,
+             return_theta_inc_sampling=False)
+    sensor, sp, emmodels = objs
+    _ = sp.bottom_layer_depths, sp.z          # a profile plot between two edits
+    run_impl(case, o, objs)
+    sp.layers[0].thickness = d2
+    case2 = dict(case, thickness=[d2])
+    I = solver_inputs(case2, o, objs)
+    r = run_impl(case2, o, objs)
+    d = np.asarray(r.data.values, float).reshape(4, -1)
+    ke, eps, T = I["ke"][0], I["eps"][0], I["trans"][0]
+    gamma = I["phase"][0] / (4 * np.pi) / eps
+    n = I["ngate"] * os_
+    req = T ** 2 * gamma * (1 - math.exp(-2 * ke * d2)) / (2 * ke)
+    obs = float(d[2].sum())
+    if len(I["zg"]) - 1 <= n and abs(obs - req) > 1e-6 * abs(req):
+        return ("beer-lambert:edited", f"layer thickness edited in place from {case['thickness'][0]} to {d2} m between two runs: the volume backscatter does not integrate "
+                "to the Beer-Lambert closed form of the new thickness", o, obs, req)
+    return None
+
+
 def _waveform_of(case, opts):
     res = run_impl(case, opts)
     return np.asarray(res.data.values, dtype=float).ravel()
@@ -434,6 +459,13 @@ def check_analytic_numerical(alt, sigma_surface, os_=8):
     ratio = float(own.sum() / ana.sum())
     if not abs(ratio - 1) <= 0.015:
         return ("analytic-vs-own-numerical:" + alt.split(":")[0], ratio, "energy ratio numerical / analytic = 1 within 1.5 %")
+    # ... and the same shape as the independent numerical convolution above, sample by sample (the unchanged package: to rounding, 0.2 % for cryosat2_lrm, up to
+    # a sub-sample delay where the nominal gate falls between two samples: each sample lies between its neighbours' values)
+    lo = np.minimum(np.minimum(num[:-2], num[1:-1]), num[2:])
+    hi = np.maximum(np.maximum(num[:-2], num[1:-1]), num[2:])
+    dev = float(np.maximum(np.maximum(lo - own[1:n - 1], own[1:n - 1] - hi), 0.0).max() / num.max())
+    if not dev <= 1e-2:
+        return ("own-numerical-vs-numerical:" + alt.split(":")[0], dev, f"within 1 % of the peak of the neighbouring samples at every sample (oversampling {os_})")
     return None
 
 
@@ -508,6 +540,12 @@ def oracle(ctx, hints, effort):
         b = check_beer_lambert(case, os_)
         if b:
             findings.append(to_finding(case, b))
+        if k % 3 == 0:
+            evals += 2
+            d2 = round(case["thickness"][0] * float(rng.choice([0.4, 1.7])), 3)
+            b = check_beer_lambert_edited(case, os_, d2)
+            if b and not any(f.key == b[0] for f in extra):
+                extra.append(Finding(b[0], b[1], {"check": "beer-edited", "case": case, "os": os_, "d2": d2}, b[3], b[4]))
     evals += 5
     try:
         r = check_sequence()
@@ -545,6 +583,9 @@ def replay(inp, rp=None):
     if inp.get("check") == "sequence":
         r = check_sequence()
         return Finding(r[0], "waveform depends on what was simulated before", inp, r[1], r[2]) if r else None
+    if inp.get("check") == "beer-edited":
+        b = check_beer_lambert_edited(inp["case"], inp["os"], inp["d2"])
+        return Finding(b[0], b[1], inp, b[3], b[4]) if b else None
     if inp.get("check") == "analytic":
         r = check_analytic_numerical(inp["alt"], inp["sigma_surface"])
         if r and r[0].startswith("analytic-vs-own"):
